@@ -44,6 +44,17 @@ CHECKS = {
         text='CashFlow.tla (cash-flow assembly loops and payback scan as a loop machine) is model-checked exhaustively over small series of every sign pattern incl. negative capital cost; the same small series are replayed into the real CalculateRevenue, calculate_npv and CalculateFinancialPerformance; economics snapshots of real runs (all end-uses, plants, economic models, add-ons, carbon, sign-pattern drivers, examples) are validated year by year by TraceCashFlow.tla in exact rational arithmetic (cf, cum, per-product revenue, NPV both conventions, IRR residual, VIR, MOIC, payback, N/A).',
         note='Trusted: TLC, BigInteger rationals, float projection. IRR by residual <= 1e-6 of sum of |terms|; other clauses 1e-9 of sum of |terms|. SUTRA family not covered. Continuous inputs sampled by seed.',
         tech='TLA+ spec (CashFlow.tla) model-checked with TLC; TLC trace validation (TraceCashFlow.tla) of recorded runs; small-series replay into code'),
+    'C05': dict(
+        cat='model_checking', ref='DESIGN.md section 5 C05',
+        text='Resource.tla models the layer walk of Reservoir.Calculate (boundary temperatures with the sentinel, first boundary above Tmax, '
+             'maxdepth cap, segment pick) and redrilling-by-tiling as loop machines and TLC checks them against the integral definition '
+             '(ResourceDef.tla) over every ordering of depth, boundaries and Tmax crossing for 1..3/4 segments and all profiles x limits; TLC '
+             'layouts are run through the real reader + Reservoir.Calculate; reservoir/well-bore snapshots of real runs (models 1-4, 1-4 '
+             'segments, binding caps, limits down to 0.5 %) are validated by TraceResource.tla (bht, depth cap, tmax, start, limit, restart '
+             'period; upper bound and monotone for models 3 and 4).',
+        note='Known finding: regime Trock <= Tinj (accepted input) breaks the upper/monotone clauses for models 3/4. The analytical drawdown '
+             'solutions are not recomputed. Continuous inputs sampled by seed.',
+        tech='TLA+ spec (Resource.tla) model-checked with TLC; TLC layouts replayed into code; TLC trace validation (TraceResource.tla)'),
     'C07': dict(
         cat='model_checking', ref='DESIGN.md section 5 C07',
         text='ReadParam.tla (decision table of ReadParameter, order of tests as in the code) is model-checked over every small '
@@ -66,6 +77,16 @@ CHECKS = {
         note='Histories for replay are sampled by seed from the exhaustive TLC dump (quick 110, thorough 1600). Results compared as report '
              'text without date/time lines.',
         tech='TLA+ spec (Client.tla) model-checked with TLC; TLC-generated histories replayed into the real client; TLC trace validation'),
+    'C11': dict(
+        cat='model_checking', ref='DESIGN.md section 5 C11',
+        text='The scaling algebra is model-checked on Levelized.tla (Homogeneous: every levelized cost is degree-1 homogeneous in all cost terms; '
+             'prices do not occur in the definition); run pairs and short ladders on seeded bases over all economic models and end-uses are '
+             'executed for real and validated by TraceRelation.tla: all costs x k => LC x k, prices + delta => LC equal and NPV strictly in the '
+             'same direction (energy sold positive), efficiency / 2 => LCOH x 2, null add-on / zero-rate tax credit / zero grant => every '
+             'reported economic figure and the whole cash-flow series unchanged.',
+        note='Homogeneity pairs make every cost an input (totals, well/stimulation, purchase rates, fees, grants). Relations to 1e-9 relative. '
+             'Bases sampled by seed (quick 60).',
+        tech='TLA+ lemmas model-checked with TLC (Levelized.tla); TLC validation of real run pairs (TraceRelation.tla)'),
     'C12': dict(
         cat='model_checking', ref='DESIGN.md section 5 C12',
         text='InputFile.tla models the tokeniser of read_input_file on real strings and is model-checked over every file of <= 3 lines from '
@@ -95,6 +116,16 @@ CHECKS = {
              'the JSON summary and the text block.',
         note='Row atomicity relies on single-write appends (observed, not proved; pylocker is third party). std compared via exact population variance.',
         tech='TLA+ concurrent spec (MonteCarlo.tla) model-checked with TLC; TLC trace validation with exact-rational statistics and row re-simulation'),
+    'C15': dict(
+        cat='model_checking', ref='DESIGN.md section 5 C15',
+        text='Hydraulics.tla models ReservoirPressurePredictor / InjectionReservoirPressurePredictor as loop machines (clamp-and-break) and TLC '
+             'checks start, monotone decline, floor at hydrostatic, stated rate and injection inflation over every small (L, n, overpressure, '
+             'rate, inflation) incl. non-integer depletion periods and the zero-step crash; every vector is replayed into the real functions; '
+             'well-bore snapshots of real runs (impedance / index, pumped / self-flowing, overpressure) are validated step by step by '
+             'TraceHydraulics.tla (non-negative pump powers, total = production + injection, pressure clauses) together with friction ladders '
+             'over 6 diameters from the real WellPressureDrop / InjectionWellPressureDrop.',
+        note='The friction function stays in the code (TLC compares ladder values). Hydrostatic pressure recovered from the series start.',
+        tech='TLA+ spec (Hydraulics.tla) model-checked with TLC; vectors replayed into code; TLC trace validation (TraceHydraulics.tla)'),
     'C16': dict(
         cat='model_checking', ref='DESIGN.md section 5 C16',
         text='Schedule.tla is model-checked exhaustively over small schedules (all lifetimes<=4/6, start years, durations, '
@@ -104,6 +135,15 @@ CHECKS = {
         note='Trusted: TLC, BigInteger rationals (Rat.java), projection of floats by as_integer_ratio. Continuous inputs are '
              'sampled by seed; exhaustive only for the small integer domains of the cfg.',
         tech='TLA+ spec (Schedule.tla) model-checked with TLC; TLC-generated vectors replayed into code; TLC trace validation of recorded runs'),
+    'C18': dict(
+        cat='model_checking', ref='DESIGN.md section 5 C18',
+        text='Monotonicity lemmas are model-checked: Resource.tla (bottom-hole temperature monotone in depth and in every gradient for all small '
+             'layouts), WellCost.tla (17 correlations non-decreasing on 500..7000 m, every grid point replayed into the real function), '
+             'Levelized.tla (MonotoneInCost); ladders of real runs differing in one parameter are validated by TraceRelation.tla: bht/gradient, '
+             'bht/depth (incl. multi-segment columns with binding caps), TDP drawdown at every time step, initial production temperature / '
+             'flow, well cost / depth for each correlation, NPV and levelized costs / 31 cost inputs and adjustment factors.',
+        note='Known findings: gradient ladder crossing 1.0 (unit heuristic); drawdown ladder in the regime Trock <= Tinj. Ladders sampled by seed.',
+        tech='TLA+ lemmas model-checked with TLC (Resource, WellCost, Levelized); TLC validation of real run ladders (TraceRelation.tla)'),
     'C20': dict(
         cat='model_checking', ref='DESIGN.md section 5 C20',
         text='Entry.tla (4 entry points x 3 output-argument kinds x 2 start directories x ok / fail-at-read / fail-at-calculate, OutPath '
